@@ -652,6 +652,35 @@ func c03Unstable(c *Check) {
 						}
 					}
 				}
+				if !okOip {
+					// hand-written min: `if fromIndex < offsetInProgress { offsetInProgress = fromIndex }` after the entries store
+					base := map[string]bool{}
+					for _, a := range as.gfi.FactsAt(st.Instr).Tested {
+						base[a.String()] = true
+					}
+					for _, s2 := range p.StoresTo(oipF) {
+						if s2.Fn != as.fn || s2.Whole || val(s2.Val).Key() != from.Key() {
+							continue
+						}
+						if !as.gfi.ReachableFrom([]int{st.Instr.Block().Index}, nil)[s2.Instr.Block().Index] {
+							continue
+						}
+						var extra []*Atom
+						for _, a := range as.gfi.FactsAt(s2.Instr).Tested {
+							if !base[a.String()] {
+								extra = append(extra, a)
+							}
+						}
+						if len(extra) == 1 {
+							t := &Facts{FI: as.gfi, Atoms: extra}
+							oipS := FieldOf(as.gfi.Sym(as.fn.Params[0]), oipF)
+							fromHere := as.gfi.Sym(s2.Val)
+							if t.ImpliesCmp(fromHere, "<=", oipS) {
+								okOip = true
+							}
+						}
+					}
+				}
 				c.Result(okKeep && okG && okOip, "C03.U", "truncate arm", fnName(as.fn), site, "fromIndex > offset: entries = append(slice(offset, fromIndex), ents...), offsetInProgress = min(offsetInProgress, fromIndex)", fmt.Sprintf("keep=%v guard=%v inprogress=%v", okKeep, okG, okOip))
 			default:
 				c.Bad("C03.U", "truncateAndAppend arm", fnName(as.fn), site, "one of append / replace / truncate", sanitizeKey(v.Key()))
